@@ -201,12 +201,12 @@ Verdict report(CaseLog& log,
     if (o.nan_seen && in.f8_dir)
         return log.fail(msg, "F8-rotate-nan");
     if (o.momentum_failed && in.near_axis && in.dir[1] < 0)
-        return log.fail(msg, "F11-rotate-sinphi-sign");
+        return log.fail(msg, "F13-rotate-near-z-sinphi-sign");
     if (o.thr_ulp)
-        return log.fail(msg, "F12-secondary-below-cut-ulp");
+        return log.fail(msg, "F20-secondary-below-cut-ulp");
     // secondary energy exceeds the incident energy by rounding
     if (o.neg_ulp)
-        return log.fail(msg, "F15-negative-outgoing-energy-ulp");
+        return log.fail(msg, "F22-negative-outgoing-energy-ulp");
     return log.fail(msg);
 }
 }  // namespace
@@ -297,7 +297,7 @@ Verdict run_case(Choices& c, CaseLog& log)
         CaseLog tmp;
         Verdict v2 = evaluate(tmp, kind, in, iso, plain, free_mode);
         if (v2 != Verdict::violation || !tmp.finding.empty())
-            log.finding = std::string("F14-extreme-draw-") + kind_name[kind];
+            log.finding = std::string("F24-extreme-canonical-draw");
     }
     return v;
 }
@@ -378,6 +378,11 @@ Verdict evaluate(CaseLog& log,
         }
         case k_sb: {
             spec.needed = 1;
+            // (known-inefficient class F16: a small bound keeps the case cheap)
+            spec.draw_bound = (in.particle == p_positron && in.energy < sb_hi
+                               && in.energy - cut_g < 1e-5)
+                                  ? 20000
+                                  : 400000;
             opts.thr[p_gamma] = cut_g;
             int free_slots = resolve_free(log, free_mode, spec.needed);
             rr = run_call(
@@ -396,6 +401,11 @@ Verdict evaluate(CaseLog& log,
         case k_combined:
         case k_combined_lpm: {
             spec.needed = 1;
+            // (known-inefficient class F16: a small bound keeps the case cheap)
+            spec.draw_bound = (in.particle == p_positron && in.energy < sb_hi
+                               && in.energy - cut_g < 1e-5)
+                                  ? 20000
+                                  : 400000;
             opts.thr[p_gamma] = cut_g;
             int free_slots = resolve_free(log, free_mode, spec.needed);
             rr = run_call(
@@ -440,7 +450,14 @@ Verdict evaluate(CaseLog& log,
         }
     }
     if (rr.done)
+    {
+        // SB positron correction exp(alpha_Z (1/beta(cut) - 1/beta(k))): the
+        // acceptance of the rejection loop vanishes like sqrt(E - cut)
+        if (rr.unbounded && in.particle == p_positron && in.energy < sb_hi
+            && in.energy - cut_g < 1e-5)
+            log.finding = "F23-sb-positron-near-cut-rejection";
         return rr.verdict;
+    }
     Outcome const& out = rr.out;
 
     OracleResult o = check_outcome(w, in, out, opts);
